@@ -89,11 +89,21 @@ def circ_options(rng, orthogonal=None):
 
 
 def build_circular(options):
+    import copy
+
     from hypnotoad.cases.circular import CircularEquilibrium
     from hypnotoad.core.mesh import BoutMesh
 
-    eq = CircularEquilibrium(settings=dict(options), nonorthogonal_settings=dict(options))
-    mesh = BoutMesh(eq, dict(options))
+    # one dict object for all three, as the scripts and the GUI do; it is the caller's
+    # and must come back unchanged
+    opts = copy.deepcopy(dict(options))
+    snap = copy.deepcopy(opts)
+    try:
+        eq = CircularEquilibrium(settings=opts, nonorthogonal_settings=opts)
+        mesh = BoutMesh(eq, opts)
+    finally:
+        if opts != snap:
+            INPUT_MUTATIONS.append({"where": "build_circular", "arrays": ["settings"]})
     return eq, mesh
 
 
@@ -180,7 +190,7 @@ def tok_options(geometry, **over):
     return o
 
 
-INPUT_MUTATIONS = []  # findings of the caller-array oracle (C14), read by histsim
+INPUT_MUTATIONS = []  # findings of the caller-object oracle (C14), read by histsim
 
 
 def snapshot_inputs(arrs):
@@ -211,18 +221,25 @@ def build_tokamak(arrs, options, nonorth=None, equilibrium_only=False, where="bu
     from hypnotoad.cases import tokamak
     from hypnotoad.core.mesh import BoutMesh
 
+    import copy
+
     snap = snapshot_inputs(arrs)
+    opts = copy.deepcopy(dict(options))
+    nopts = opts if nonorth is None else copy.deepcopy(dict(nonorth))
+    osnap = (copy.deepcopy(opts), copy.deepcopy(nopts))
     try:
         eq = tokamak.TokamakEquilibrium(
             arrs["R1D"], arrs["Z1D"], arrs["psi2D"], arrs["psi1D"], arrs["fpol1D"],
             pressure=arrs.get("pressure"), wall=arrs.get("wall"),
-            settings=dict(options), nonorthogonal_settings=dict(nonorth or options),
+            settings=opts, nonorthogonal_settings=nopts,
         )
         if equilibrium_only:
             return eq, None
-        mesh = BoutMesh(eq, dict(options))
+        mesh = BoutMesh(eq, opts)
     finally:
         compare_inputs(arrs, snap, where)
+        if (opts, nopts) != osnap:
+            INPUT_MUTATIONS.append({"where": where, "arrays": ["settings"]})
     return eq, mesh
 
 
